@@ -1,7 +1,11 @@
 """C03 — a version-3 dump yields all chunked events, then logs, plus metadata sections."""
-from ..io_util import BudgetReader
+from hypothesis import strategies as st
 
-from .. import files, kmodel, logs
+from ..io_util import BudgetReader, HOST_ZONES, zoned
+
+import json
+
+from .. import cli as CLI, files, kmodel, logs
 from ..core import Violation, guard
 from .c01 import check_event
 
@@ -15,7 +19,7 @@ RULE = ('cases: version-3 dumps built by an independent encoder: fixed header wi
         'last block with or without alignment padding. Oracle: events == independent decoding of every record in '
         'order and before any log; tables == thread map extended by logs naming process+thread; every metadata '
         'section == payload (lists concatenated in file order); header fields == generated; logs == C16 expectation '
-        'in order. Non-trivial: >= 2 non-empty chunks and >= 1 metadata/log block; distinct by file digest.')
+        'in order (decoded on hosts of 7 local time zones); sub-check big: chunks of 255..4097 records; sub-check cli: the `processes`, `kexts` and `images` commands print, as JSON, the payload of their section. Non-trivial: >= 2 non-empty chunks and >= 1 metadata/log block; distinct by file digest.')
 ASSUMPTIONS = ['container layout taken from the parser\'s own format description (tags, 8-byte realignment, u64 lengths)',
                'fillers never contain a complete copy of the marker that ends them (checked by construction)',
                'at most one processes block and one images block per dump; exactly one string-index block when logs exist']
@@ -136,8 +140,49 @@ def prop_file(ctx, case):
     ctx.note(blob, nontrivial=nonempty >= 2 and len(seq) >= 1, classes=cls)
 
 
-PROPS = {'file': prop_file}
+def prop_cli(ctx, case):
+    """the metadata commands of the command line print the section payloads (as JSON, whatever the layout)"""
+    spec = case
+    blob = files.build_v3(spec)
+    exp = expected(spec)
+    shown = 0
+    for cmd, want in (('processes', exp['processes']), ('kexts', {'Binaries': exp['kexts']}), ('images', exp['images'])):
+        try:
+            want_json = json.loads(json.dumps(want))
+        except (TypeError, ValueError):
+            continue        # payload holds plist values JSON cannot carry (dates, bytes): nothing is promised
+        out, exc = guard(CLI.invoke, cmd, {}, blob)
+        if exc is not None:
+            raise Violation(f'cli:{cmd}:fails', f'`{cmd} DUMP` ends with {exc}; the section is {want!r}')
+        try:
+            got = json.loads(out)
+        except ValueError:
+            raise Violation(f'cli:{cmd}:not-json', f'`{cmd} DUMP` prints {out[:200]!r}')
+        if got != want_json:
+            raise Violation(f'cli:{cmd}', f'`{cmd} DUMP` prints {got!r}, the section holds {want_json!r}')
+        shown += bool(want_json not in ({}, {'Binaries': []}))
+    ctx.note(blob, nontrivial=shown > 0, classes=['cli', f'sections-shown:{shown}'])
+
+
+def prop_big(ctx, case):
+    """event chunks of hundreds to thousands of records (around the block sizes of a buffered reader)"""
+    recs = files.many_records(case['count'], case['seed'])
+    cut = case['split'] % (case['count'] + 1)
+    spec = dict(case['spec'], chunks=[recs[:cut], recs[cut:]] if case['split'] % 3 else [recs])
+    prop_file(ctx, spec)
+    ctx.note(['big', case['count'], cut], nontrivial=True, classes=[f'records:{case["count"]}'])
+
+
+prop_file = zoned(prop_file)
+PROPS = {'file': prop_file, 'cli': prop_cli, 'big': prop_big}
 
 
 def run(ctx):
-    ctx.run_given('file', files.v3_spec(), prop_file, ctx.n(300, 1500))
+    zspec = st.tuples(files.v3_spec(), st.sampled_from(HOST_ZONES)).map(lambda t: {**t[0], 'zone': t[1]})
+    ctx.run_given('file', zspec, prop_file, ctx.n(300, 1500))
+    bigs = st.fixed_dictionaries({'spec': files.v3_spec(max_events=0, max_n=3, log_copies=1), 'count': st.sampled_from(files.BIG_COUNTS),
+                                  'seed': st.integers(0, 2 ** 32), 'split': st.integers(0, 5000)})
+    ctx.run_given('big', bigs, prop_big, ctx.n(16, 120))
+    if ctx.failures:
+        return          # the command line reads real files without a read budget: not on a tree that already fails
+    ctx.run_given('cli', files.v3_spec(), prop_cli, ctx.n(60, 300))
